@@ -11,6 +11,7 @@
 XPath 1.0 implementation - part 3 (functions)
 """
 import math
+from copy import copy
 import decimal
 from collections.abc import Iterator
 from typing import Any
@@ -402,7 +403,7 @@ def evaluate__lang(self: XPathFunction, context: ta.ContextType = None) -> bool:
         try:
             attr = context.item.value.attrib[XML_LANG]
         except KeyError:
-            for e in context.iter_ancestors():
+            for e in copy(context).iter_ancestors():  # the caller's focus stays where it is
                 if isinstance(e, EtreeElementNode) and XML_LANG in e.value.attrib:
                     lang = e.value.attrib[XML_LANG]
                     if not isinstance(lang, str):
